@@ -204,6 +204,7 @@ func (f *Frame) oblige(class, kind string, pos token.Pos, cond T) *Obl {
 		name = fmt.Sprintf("%s#%d", base, n)
 	}
 	o := &Obl{Name: name, Class: class, Func: f.topName(), Path: f.curPath(), Cond: cond, Pos: f.p.pos(pos), SrcLine: line}
+	o.Extra = append(o.Extra, f.enc.extras...)
 	f.enc.obls = append(f.enc.obls, o)
 	// after checking, the condition is assumed (execution continues only if it held)
 	f.assume(cond)
@@ -694,6 +695,12 @@ func (f *Frame) loopHeader(li *loopInfo, preds []*ssa.BasicBlock) {
 		tr := f.translator(b, li.phiSyms, f.st, li)
 		f.assume(tr.boolExpr(inv.Expr))
 	}
+	{
+		tr := f.translator(b, li.phiSyms, f.st, li)
+		for _, u := range li.spec.Uses {
+			f.enc.extras = append(f.enc.extras, tr.useInstance(u)...)
+		}
+	}
 	// measure at header
 	li.measure = nil
 	for _, d := range li.spec.Decreases {
@@ -789,6 +796,7 @@ func (f *Frame) obligeNamed(class, name string, pos token.Pos, cond T, props []s
 		full = f.oblPfx + ">" + full
 	}
 	o := &Obl{Name: full, Class: class, Func: f.topName(), Path: f.curPath(), Cond: cond, Pos: f.p.pos(pos)}
+	o.Extra = append(o.Extra, f.enc.extras...)
 	o.Props = props
 	f.enc.obls = append(f.enc.obls, o)
 	f.assume(cond)
